@@ -386,6 +386,44 @@ func (m *Decisions) AfterScan(ctx *h.ScanCtx) []h.Violation {
 					}
 				}
 			}
+			// C03 restore clause under failing untaint reads / writes only: a node whose untaint failed is
+			// not restored, so the next tainted node or the cloud request has to make up for it
+			if d.Class == "restore" && faultsOnlyNodeWrites {
+				usable := 0
+				for _, n := range g.T {
+					if !o.failedNodes[n.Name] {
+						usable++
+					}
+				}
+				want := d.Need
+				if want > usable {
+					want = usable
+				}
+				k := len(o.removes) + o.noopRemoves
+				if k < want {
+					add("C03", "C03/restore-untaint-count/under-untaint-failure", fmt.Sprintf("group %s: %d untainted < min %d, %d of %d tainted nodes can be untainted: expected %d untaints, saw %d", g.Name, len(g.U), g.Min, usable, len(g.T), want, k))
+				}
+				rem := int64(d.Need - k)
+				var asked int64
+				for _, e := range o.incr {
+					if e.Op == sim.OpSetDesired {
+						asked += e.Val - e.RealDesired
+					} else {
+						asked += e.Val
+					}
+				}
+				head := B - (g.CloudDesired - int64(o.terminatedBeforeIncr))
+				exp := rem
+				if exp > head {
+					exp = head
+				}
+				if exp < 0 {
+					exp = 0
+				}
+				if rem > 0 && k >= want && asked != exp {
+					add("C03", "C03/restore-request/under-untaint-failure", fmt.Sprintf("group %s: restore needs %d more after %d successful untaints (some failed), headroom %d: expected a request for %d, saw %d", g.Name, rem, k, head, exp, asked))
+				}
+			}
 			continue
 		}
 
